@@ -4,13 +4,16 @@ Specs: spec/Loaders.tla (split_template_path, posixpath.join, normpath and the
 operating system's path resolution on an abstract directory tree with sentinel
 files outside the search directories) and spec/LoaderCompose.tla (ChoiceLoader /
 PrefixLoader resolution as a machine with an explicit stack of loader calls,
-checked against the declarative "first candidate that has it" rule).
+checked against the declarative "first candidate that has it" rule) and
+spec/LoaderSession.tla (the same machine asked again and again on ONE composition
+while the contents of the leaves change: every answer is the first candidate that
+has the name now, whatever was asked before).
 
 Binding (spec->code): the tree, the loaders, the fragment alphabet and the
 loader compositions are constants of the specifications; the harness builds
 exactly that tree on disk, TLC enumerates every name / composition, checks the
 C28_* invariants on the model and prints the expected outcome of every
-behaviour; every behaviour is replayed on the real FileSystemLoader /
+behaviour (every session: of every lookup in it); every behaviour is replayed on the real FileSystemLoader /
 PackageLoader (directory and zip) / ChoiceLoader / PrefixLoader with a
 sys.addaudithook recording every open().  The oracle is the TLC output; Python
 only builds inputs, drives jinja2, projects (outcome, opened files) and compares.
@@ -753,6 +756,265 @@ def part_compose(ck, inp, res):
 
 
 # ---------------------------------------------------------------------------
+# part 4: sessions - one composition object asked again and again while the contents of its leaves change
+# ---------------------------------------------------------------------------
+SESSION_LOCAL = [["a"], ["b"], ["q", "/", "a"], ["q", ":", "a"], ["x"]]     # local names a leaf may gain / lose
+SESSION_CFG = """CONSTANTS
+  Comps <- mc_Comps
+  NameSet <- mc_Names
+  LeafHas <- mc_LeafHas
+  MaxOps = {maxops}
+  MaxChurn = {maxchurn}
+SPECIFICATION SSpec
+INVARIANT C28_FirstNow
+INVARIANT C28_NotFoundIffNoneNow
+INVARIANT C28_StableDuringLookup
+INVARIANT C28_SessionRouting
+INVARIANT C28_SessionAskedInOrder
+"""
+SESSION_APIS = [["get_source"], ["get_template"], ["get_source", "get_template"], ["fresh_env"],
+                ["get_template", "fresh_env", "get_source"]]
+
+
+def routed_name(rnd, t):
+    """a name that (probably) reaches leaves of the composition: the keys and delimiters on a path down the tree
+    in front of a local name.  What it resolves to - if anything - is for the specification to say."""
+    if t["k"] == "leaf":
+        return list(rnd.choice(SESSION_LOCAL))
+    if t["k"] == "choice":
+        return routed_name(rnd, rnd.choice(t["subs"]))
+    j = rnd.randrange(len(t["keys"]))
+    return t["keys"][j] + t["delim"] + routed_name(rnd, t["subs"][j])
+
+
+def session_inputs(ck, inp):
+    """(composition, names asked) pairs offered to LoaderSession.tla, which keeps those with 2..MaxChurn
+    <<leaf, local name>> pairs that can change"""
+    comps = inp[0]
+    quick = ck.tier == "quick"
+    rnd = random.Random(ck.seed * 104729 + 2804)
+    offers = []
+    # depth <= 1: every ChoiceLoader, a few PrefixLoaders (no choice in them: two names of one leaf change);
+    # depth 2: the seeded random compositions of part 3
+    d1_prefix = [t for t in comps[:1 + inp[2]] if t["k"] == "prefix"]
+    rand = comps[1 + inp[2]:]
+    pool = [t for t in comps[:1 + inp[2]] if t["k"] == "choice"] + rnd.sample(d1_prefix, 8 if quick else 24) + \
+        (rand if quick else rnd.sample(rand, 150))
+    for t in pool:
+        for _ in range(1 if quick else 2):
+            ns = [routed_name(rnd, t)]
+            if t["k"] == "prefix" or rnd.random() < 0.3:
+                n2 = routed_name(rnd, t)
+                if n2 not in ns:
+                    ns.append(n2)
+            if not any(o["t"] == t and o["ns"] == ns for o in offers):
+                offers.append({"t": t, "ns": ns})
+    return offers, (4 if quick else 5), 4
+
+
+def session_mc(offers):
+    return f"""---- MODULE MC_LoaderSession ----
+EXTENDS LoaderSession
+mc_Comps == {{{", ".join("[id |-> " + str(i + 1) + ", t |-> " + tla(o["t"]) + ", ns |-> {" + ", ".join(tla(n) for n in o["ns"]) + "}]"
+                        for i, o in enumerate(offers))}}}
+mc_Names == {{}}
+mc_LeafHas == {tla_fun({k: "{" + ", ".join(tla(n) for n in v) + "}" for k, v in LEAF_HAS.items()})}
+====
+"""
+
+
+def run_session_tlc(name, offers, maxops, maxchurn, liveness=False, workers=3):
+    d = core.workdir(PID, name + "_mc")
+    mc = d / "MC_LoaderSession.tla"
+    mc.write_text(session_mc(offers))
+    cfg = SESSION_CFG.format(maxops=maxops, maxchurn=maxchurn) + ("PROPERTY C28_SessionTerminates\n" if liveness else "")
+    return core.run_tlc(PID, "MC_LoaderSession", cfg, name=name, extra_modules=[mc], timeout=2400, workers=workers)
+
+
+def session_tlc(ck, sinp):
+    offers, maxops, maxchurn = sinp
+    quick = ck.tier == "quick"
+    r = run_session_tlc("session", offers, maxops, maxchurn, workers=3 if quick else 8)
+    # every lookup of a session terminates (liveness): the lookups are those of LoaderCompose.tla with the contents
+    # frozen (C28_StableDuringLookup), whose termination the quick tier checks there; here in the thorough tier only
+    rl = None if quick else run_session_tlc("session_live", offers[:40], 3, maxchurn, liveness=True, workers=2)
+    return r, rl
+
+
+def sessions_of(r):
+    """deduplicated sessions TLC printed: [{"c": id, "churn": [[leaf, atoms]..], "log": [event..]}]"""
+    out = {}
+    for x in set(r.printed()):
+        b = json.loads(x)
+        out[json.dumps([b["c"], [[e["e"], e["l"], e["n"]] for e in b["log"]]])] = b
+    return [out[k] for k in sorted(out)]
+
+
+class SessionKit(LeafKit):
+    """Leaf loaders whose contents can change: DictLoader / FunctionLoader over a mapping that is mutated,
+    FileSystemLoader over a directory in which files are created and removed.  Every occurrence of a leaf id
+    in a composition shows the same contents (as has[id] in the specification)."""
+
+    def begin(self):
+        self.maps, self.undo = {}, []
+
+    def leaf(self, kind, i):
+        from jinja2 import DictLoader, FileSystemLoader, FunctionLoader
+        if kind == "fs":
+            return FileSystemLoader(os.path.join(self.root, i))
+        mapping = {text(n): self.source(i, n) for n in LEAF_HAS[i]}
+        self.maps.setdefault(i, []).append(mapping)
+        if kind == "dict":
+            return DictLoader(mapping)
+        return FunctionLoader(lambda name, mapping=mapping: mapping.get(name))
+
+    def path(self, i, n):
+        return os.path.join(self.root, i, text(n))
+
+    def fs_ok(self, churn):
+        """can the pairs be files that come and go next to the files of the initial contents?"""
+        for i, n in churn:
+            p = self.path(i, n)
+            if not fs_leaf_exact(text(n)) or os.path.isdir(p):
+                return False
+            q = os.path.dirname(p)
+            while len(q) > len(self.root):
+                if os.path.isfile(q) or any(j == i and self.path(j, m) == q for j, m in churn):
+                    return False
+                q = os.path.dirname(q)
+        return True
+
+    def put(self, kind, i, n):
+        if kind == "fs":
+            p = self.path(i, n)
+            os.makedirs(os.path.dirname(p), exist_ok=True)
+            with open(p, "w") as f:
+                f.write(self.source(i, n))
+            self.undo.append(("rm", p, None))
+        else:
+            for m in self.maps.get(i, ()):
+                m[text(n)] = self.source(i, n)
+
+    def drop(self, kind, i, n):
+        if kind == "fs":
+            p = self.path(i, n)
+            os.remove(p)
+            self.undo.append(("write", p, self.source(i, n)))
+        else:
+            for m in self.maps.get(i, ()):
+                del m[text(n)]
+
+    def end(self):
+        for op, p, src in reversed(self.undo):
+            if op == "rm":
+                if os.path.exists(p):
+                    os.remove(p)
+            else:
+                with open(p, "w") as f:
+                    f.write(src)
+        self.undo = []
+
+
+def replay_session(ck, kit, o, cid, sess, kind, apis):
+    """One session of LoaderSession.tla on ONE real loader object; -> number of lookups compared."""
+    t = o["t"]
+    kit.begin()
+    n = 0
+    try:
+        loader = kit.build(kind, t)
+        env = plain_env(loader)
+        g = 0
+        for step, e in enumerate(sess["log"]):
+            if e["e"] == "put":
+                kit.put(kind, e["l"], e["n"])
+                continue
+            if e["e"] == "drop":
+                kit.drop(kind, e["l"], e["n"])
+                continue
+            name = text(e["n"])
+            api = apis[g % len(apis)]
+            g += 1
+            fn = {"get_source": lambda: loader.get_source(env, name)[0],
+                  "get_template": lambda: env.get_template(name).render(),
+                  "fresh_env": lambda: plain_env(loader).get_template(name).render()}[api]
+            out, _opened = observed(fn)
+            got = "NF" if out[0] == "NF" else out[1]
+            exp = "NF" if e["r"] == ["TemplateNotFound"] else json.dumps(["source", e["r"][1], text(e["r"][2])])
+            n += 1
+            if got != exp:
+                events = [[x["e"], x["l"], text(x["n"])] for x in sess["log"][:step + 1]]
+                ck.violation({"kind": "session", "comp": t, "ns": o["ns"], "leafkind": kind, "apis": apis,
+                              "log": sess["log"], "step": step, "expected": e["r"], "actual": list(out)},
+                             f"{show_comp(t)} ({kind} leaves), one loader object, after {events[:-1]}: {api}({name!r}) "
+                             f"- the specification resolves it to {exp} (first candidate that has it now), real code: {out}",
+                             {"kind": "session", "root": t["k"], "api": api})
+                break
+    finally:
+        kit.end()
+    return n
+
+
+def part_session(ck, sinp, res):
+    offers, maxops, maxchurn = sinp
+    r, rl = res
+    t1 = time.time()
+    ck.add_tlc(r, f"LoaderSession: {len(offers)} (composition, names) offers, sessions of {maxops} events "
+                  f"(put / drop / get) over <= {maxchurn} changing (leaf, name) pairs")
+    if rl is not None:
+        ck.add_tlc(rl, "LoaderSession: every lookup of a session terminates (liveness), 40 offers, 3 events")
+    sessions = sessions_of(r)
+    by_c = {}
+    for s in sessions:
+        by_c.setdefault(s["c"], []).append(s)
+    # vacuity guards: enough sessions, every event kind, and sessions in which the answer to a name changes
+    kinds = {e["e"] for s in sessions for e in s["log"]}
+    changing = 0
+    for s in sessions:
+        seen = {}
+        for e in s["log"]:
+            if e["e"] == "get":
+                k = json.dumps(e["n"])
+                if k in seen and seen[k] != e["r"]:
+                    changing += 1
+                    break
+                seen[k] = e["r"]
+    roots = {offers[c - 1]["t"]["k"] for c in by_c}
+    if len(by_c) < 8 or kinds != {"put", "drop", "get"} or changing < 50 or roots != {"choice", "prefix"}:
+        raise core.MachineryError(f"LoaderSession: sessions too thin (offers with sessions {len(by_c)}, event kinds "
+                                  f"{sorted(kinds)}, sessions with a changing answer {changing}, roots {sorted(roots)})")
+    cap = 2400 if ck.tier == "quick" else 30000
+    rnd = random.Random(ck.seed * 31337 + 2805)
+    if len(sessions) > cap:                       # the same share of every offer
+        chosen = []
+        for c in sorted(by_c):
+            k = min(len(by_c[c]), max(20, len(by_c[c]) * cap // len(sessions)))
+            chosen += [by_c[c][j] for j in sorted(rnd.sample(range(len(by_c[c])), k))]
+        ck.exhaustive = False
+    else:
+        chosen = sessions
+    kit = SessionKit()
+    n = ns = 0
+    try:
+        for idx, s in enumerate(chosen):
+            o = offers[s["c"] - 1]
+            churn = [(l, a) for l, a in s["churn"]]
+            for ki, kind in enumerate(("dict", "func", "fs")):
+                if kind == "fs" and not kit.fs_ok(churn):
+                    continue
+                n += replay_session(ck, kit, o, s["c"], s, kind, SESSION_APIS[(idx + 2 * ki) % len(SESSION_APIS)])
+                ns += 1
+            if idx % 500 == 7:
+                ck.sample({"composition": show_comp(o["t"]), "session": [[e["e"], e["l"], text(e["n"]), e["r"]] for e in s["log"]]})
+    finally:
+        kit.close()
+    ck.traces += ns
+    ck.evaluations += n
+    ck.extra["sessions"] = {"offers": len(offers), "offers_with_sessions": len(by_c), "enumerated": len(sessions),
+                            "replayed_x_leafkinds": ns, "lookups_compared": n, "with_changing_answer": changing}
+    ck.extra.setdefault("phase_s", {}).update({"session_replay": round(time.time() - t1, 1)})
+
+
+# ---------------------------------------------------------------------------
 def run(ck0):
     from concurrent.futures import ThreadPoolExecutor
     core.use_repo()
@@ -762,15 +1024,17 @@ def run(ck0):
     try:
         zs = zip_setup()
         inp = compose_inputs(ck)
-        parts = set(os.environ.get("JV_C28_PARTS", "fs,zip,compose").split(","))  # development aid
+        sinp = session_inputs(ck, inp)
+        parts = set(os.environ.get("JV_C28_PARTS", "fs,zip,compose,session").split(","))  # development aid
         t0 = time.time()
         # the independent TLC runs go side by side (each with a share of the cores)
-        with ThreadPoolExecutor(4) as ex:
+        with ThreadPoolExecutor(5) as ex:
             f_fs = ex.submit(fs_tlc, ck, tree) if "fs" in parts else None
             f_zip = ex.submit(zip_tlc, ck, zs) if "zip" in parts else None
             f_co = ex.submit(compose_tlc, ck, inp) if "compose" in parts else None
             f_cf = ex.submit(conf_tlc, ck, tree) if "fs" in parts else None
-            res = [f.result() if f else None for f in (f_fs, f_zip, f_co, f_cf)]
+            f_se = ex.submit(session_tlc, ck, sinp) if "session" in parts else None
+            res = [f.result() if f else None for f in (f_fs, f_zip, f_co, f_cf, f_se)]
         ck.extra.setdefault("phase_s", {})["tlc_all"] = round(time.time() - t0, 1)
         if res[0]:
             part_fs(ck, tree, res[0], res[3])
@@ -778,7 +1042,9 @@ def run(ck0):
             part_zip(ck, zs, res[1])
         if res[2]:
             part_compose(ck, inp, res[2])
-        if parts != {"fs", "zip", "compose"}:
+        if res[4]:
+            part_session(ck, sinp, res[4])
+        if parts != {"fs", "zip", "compose", "session"}:
             raise core.MachineryError(f"partial run (JV_C28_PARTS={sorted(parts)}), violations so far: {len(ck._items)}")
     finally:
         ck.flush()
@@ -815,6 +1081,20 @@ def _replay(ck, rec):
     core.use_repo()
     install_hook()
     c = rec["case"]
+    if c["kind"] == "session":
+        offers = [{"t": c["comp"], "ns": c["ns"]}]
+        r = run_session_tlc("replay", offers, len(c["log"]), 99, workers=2)
+        ck.add_tlc(r, "LoaderSession replay")
+        sig = [[e["e"], e["l"], e["n"]] for e in c["log"]]
+        hit = [x for x in sessions_of(r) if [[e["e"], e["l"], e["n"]] for e in x["log"]] == sig]
+        if not hit:
+            raise core.MachineryError("replay: TLC did not produce the recorded session")
+        kit = SessionKit()
+        try:
+            replay_session(ck, kit, offers[0], 1, hit[0], c["leafkind"], c["apis"])
+        finally:
+            kit.close()
+        return
     if c["kind"] == "compose":
         r = run_compose_tlc("replay", [c["comp"]], [c["atoms"]], workers=2)
         ck.add_tlc(r, "LoaderCompose replay")
